@@ -29,7 +29,7 @@ ASSUMPTIONS = [
 ]
 MUST_SEE = ["reject_at_first_use", "reject_at_definition", "override_changes_category", "newtype_node_in_tuple", "none_annotation", "child_verdicts", "prop_verdicts", "forward_refs", "postponed", "inherited"]
 CONFIG = {
-    "quick": {"shards": 16, "d2_sample": 60, "d3_sample": 40, "layouts_per_ann": 3, "watchdog_s": 600},
+    "quick": {"shards": 16, "d2_sample": 200, "d3_sample": 40, "layouts_per_ann": 3, "watchdog_s": 600},
     "thorough": {"shards": 32, "d2_sample": -1, "d3_sample": 2000, "layouts_per_ann": 99, "watchdog_s": 3400},
 }
 
